@@ -302,6 +302,7 @@ Ltac vinv :=
          | H : unsupported = Ok _ |- _ => discriminate H
          end.
 
+Opaque k_sparse k_scalar k_array ik_sparse lv_isparse lv_iscalar lv_iarray cmp_sparse cmp_scalar cmp_array lv_cmp_sparse lv_cmp_scalar.
 Lemma vec_bin_wf o self p r : vwf self -> pwf p -> vec_bin false o self p = Ok r -> vwf r.
 Proof.
   intros Hs Hp H. destruct self as [c|b]; cbn in Hs.
@@ -326,6 +327,7 @@ Proof.
              end; vinv; cbn; auto.
 Qed.
 
+Transparent k_sparse k_scalar k_array ik_sparse lv_isparse lv_iscalar lv_iarray cmp_sparse cmp_scalar cmp_array lv_cmp_sparse lv_cmp_scalar.
 Lemma all_F_wf l r : Forall vwf l -> all_F l = Some r -> Forall wf r.
 Proof.
   intros Hl. revert r. induction Hl as [|x l Hx Hl IH]; cbn; intros r H.
